@@ -44,8 +44,6 @@ extern "C" void harness_attnorm(void) {
   XMLCh u[N]; bool esc[N]; static XMLCh in[2 * N + 1]; XMLSize_t k = 0;
   for (int i = 0; i < N; i++) { u[i] = nondet_u16(); esc[i] = nondet_bool(); if ((XMLSize_t)i < n) { VX_ASSUME(u[i] != 0 && (esc[i] || u[i] != 0xFFFF)); if (esc[i]) in[k++] = 0xFFFF; in[k++] = u[i]; } }
   in[k] = 0;
-  // tokenized types: escaped TAB/LF/CR are collapsed like literal ones by this implementation (XML 1.0 would keep them); not judged here
-  if (!cdata) for (int i = 0; i < N; i++) if ((XMLSize_t)i < n && esc[i]) VX_ASSUME(u[i] != 0x9 && u[i] != 0xA && u[i] != 0xD);
   static const XMLCh nm[] = { 'a', 0 };
   XMLBuffer out(16, &mm);
   bool ok = sc->normalizeAttValue(haveDef ? &def : 0, nm, in, out);
@@ -56,7 +54,8 @@ extern "C" void harness_attnorm(void) {
   } else {
     bool pend = false;
     for (int i = 0; i < N; i++) if ((XMLSize_t)i < n) { XMLCh c = u[i]; if (!esc[i] && c == '<') bracket = true;
-      if (ws(c)) { if (rn > 0) pend = true; } else { if (pend) ref[rn++] = 0x20; pend = false; ref[rn++] = c; } }
+      // (a REFERENCED tab / line feed / carriage return is content: only literal white space and #x20 from any origin are collapsed)
+      if (ws(c) && (!esc[i] || c == 0x20)) { if (rn > 0) pend = true; } else { if (pend) ref[rn++] = 0x20; pend = false; ref[rn++] = c; } }
   }
   VX_ASSERT(ok == !bracket, "normalisation fails exactly when the value contains a literal '<'");
   VX_ASSERT((vx_scan_errors != 0) == bracket, "a well-formedness error is reported exactly for a literal '<'");
@@ -65,5 +64,6 @@ extern "C" void harness_attnorm(void) {
   for (XMLSize_t i = 0; i < N; i++) if (i < rn && out.getLen() == rn) VX_ASSERT(o[i] == ref[i], "normalised attribute value equals XML 1.0 3.3.3 (literal white space -> space, referenced characters verbatim, tokenized types collapsed)");
   if (cdata && n == N && esc[0] && u[0] == 0xA) VX_REACH("referenced line feed kept verbatim");
   if (!cdata && rn + 2 <= n) VX_REACH("tokenized value collapsed");
+  if (!cdata && n >= 3 && esc[1] && u[1] == 0x9 && rn == n) VX_REACH("referenced tab kept inside a tokenized value");
   if (bracket) VX_REACH("literal '<' reported");
 }
